@@ -182,6 +182,8 @@ impl C05 {
         let (soups, edits, trunc, noise) = match (ctx.flavour, ctx.tier) {
             (Flavour::Rel, Tier::Quick) => (150_000, 100_000, 600, 30_000),
             (Flavour::Rel, Tier::Thorough) => (5_000_000, 3_000_000, 20_000, 1_000_000),
+            // the workload that is run natively under valgrind memcheck (run_valgrind_inproc)
+            (Flavour::Miri, _) => (600, 800, 400, 200),
             (_, Tier::Quick) => (5_000, 5_000, 40, 2_000),
             (_, Tier::Thorough) => (100_000, 100_000, 500, 30_000),
         };
@@ -192,7 +194,7 @@ impl C05 {
             ("truncations", trunc),
             ("noise", noise),
             ("binary", if ctx.flavour == Flavour::Rel { 3 } else { 0 }),
-            ("scale", self.scale_len(ctx)),
+            ("scale", if ctx.flavour == Flavour::Miri { 0 } else { self.scale_len(ctx) }),
         ])
     }
 
@@ -206,7 +208,8 @@ impl C05 {
 
     fn cfg(ctx: &Ctx) -> ObsCfg {
         match ctx.flavour {
-            Flavour::Asan | Flavour::Miri => ObsCfg::plain(300_000),
+            Flavour::Asan => ObsCfg::plain(300_000),
+            Flavour::Miri => ObsCfg::plain(20_000),
             _ => {
                 let mut c = ObsCfg::default();
                 c.budget = Some(300_000);
@@ -446,6 +449,11 @@ impl Check for C05 {
             if t.len() > 3_000_000 {
                 continue;
             }
+            // under a memory checker (25 times slower): not the inputs that are big or run for millions of instructions
+            if ctx.flavour == Flavour::Miri && (t.len() > 4096 || label.starts_with("long-run:") || t.contains("zolang ja") || t.contains("n + 1)")) {
+                st.count("skipped-under-memory-checker");
+                continue;
+            }
             self.judge(t, &cfg, name, &label, st);
         }
         if idx % 20011 == 0 {
@@ -475,6 +483,10 @@ impl Check for C05 {
 
     fn post(&mut self, ctx: &Ctx, merged: &mut Stats) {
         if ctx.flavour == Flavour::Rel {
+            // a few thousand inputs of every family natively under valgrind memcheck (both tiers)
+            let mctx = Ctx { seed: ctx.seed, tier: ctx.tier, flavour: Flavour::Miri };
+            let n = self.fams(&mctx).total();
+            crate::sup::run_valgrind_inproc("C05", ctx, n, 16, merged);
             crate::sup::run_sub_flavour("C05", ctx, Flavour::Dbg, merged);
             if ctx.tier == Tier::Thorough {
                 crate::sup::run_sub_flavour("C05", ctx, Flavour::Asan, merged);
